@@ -240,3 +240,34 @@ func vh_C02_L2_zero_window() {
 	vassert(!a.willSendAbort && !b.willSendAbort, "no ABORT")
 	vcover("end")
 }
+
+// C02.L3..L5: the progress mechanisms named by the property, as obligations of their own.
+func vh_C02_L3_t3_retransmits_first_outstanding() { vh_C06_L2_abandoned_never_resent() }
+func vh_C02_L4_gap_fill_at_zero_window()          { vh_C11_L2_credit_and_full_buffer() }
+
+// C02.L5: T3 never gives up: with every packet lost, each of 10 consecutive expiries puts
+// the outstanding reliable chunk on the wire again and leaves the timer running.
+func vh_C02_L5_t3_never_gives_up() {
+	a, _ := vPair(vAssocOpts{pickTSN: true})
+	s, err := a.OpenStream(1, PayloadTypeWebRTCBinary)
+	vassert(err == nil, "open stream")
+	_, werr := s.WriteSCTP(nondetBytes(2), PayloadTypeWebRTCBinary)
+	vassert(werr == nil, "write accepted")
+	first := a.myNextTSN
+	onWire := 0
+	for round := 0; round < 11; round++ {
+		for _, raw := range vWriterWake(a) { // lost
+			p := vDecode(raw)
+			for _, c := range p.chunks {
+				if d, ok := c.(*chunkPayloadData); ok && d.tsn == first {
+					onWire++
+				}
+			}
+		}
+		vassert(a.t3RTX.isRunning(), "T3 is running while reliable data is outstanding")
+		vassert(vFireRtx(a, a.t3RTX), "and expires")
+	}
+	vassert(onWire == 11, "every T3 expiry retransmits the outstanding chunk, for as long as the association lives")
+	vassert(a.cwnd >= a.MTU(), "the congestion window never falls below one MTU")
+	vcover("end")
+}
